@@ -8,6 +8,7 @@ expected verdict; accept => the function ran once with the value, reject => it d
 Client family.  Since every family is compared with the same expected verdict the verdict vector is constant."""
 import datetime as _dt
 import decimal
+import itertools
 import json
 
 from vf import tagged, harness, spec, drv, universe
@@ -117,6 +118,15 @@ def facets(tier):
     add('Uuid', T('Uuid'), [('ok', universe.values.UUIDS[1][1]), ('raw:abc', Raw('abc')), ('raw:bad-hex', Raw('zzzzzzzz-1234-5678-1234-567812345678'))])
     add('ByteArray', T('ByteArray'), [('ok', b'abc'), ('raw:bad-length', Raw('a')), ('raw:bad-chars', Raw('!!!!'))])
     add('ByteArray(hex)', T('ByteArray', encoding='hex'), [('ok', b'abc'), ('raw:odd', Raw('abc')), ('raw:bad-chars', Raw('zz'))])
+    # the whole lattice of range constraints: each of ge, gt, le, lt unset or one of two bounds (all 81 combinations,
+    # including both an inclusive and an exclusive bound on the same side) x every value around the bounds
+    for name, lows, highs, mk, probes in _lattices(tier):
+        for ge, gt, le, lt in itertools.product((None,) + lows, (None,) + lows, (None,) + highs, (None,) + highs):
+            a = {k: E(mk(b)) if not isinstance(mk(b), int) else mk(b) for k, b in (('ge', ge), ('gt', gt), ('le', le), ('lt', lt)) if b is not None}
+            if not a:
+                continue
+            fid = '%s-lattice(%s)' % (name, ','.join('%s=%s' % (k, b) for k, b in (('ge', ge), ('gt', gt), ('le', le), ('lt', lt)) if b is not None))
+            add(fid, ['p', name, a], [('n:%s' % x, mk(x)) for x in probes])
     # nullability x occurrence
     for fid, t in [('Integer()', T('Integer')), ('Integer(nillable=False)', T('Integer', nillable=False)),
                    ('Integer(min_occurs=1)', T('Integer', min_occurs=1)),
@@ -130,6 +140,15 @@ def facets(tier):
             vals.append(('empty', ''))
         add(fid, t, vals)
     return F
+
+
+def _lattices(tier):
+    out = [('Integer', (0, 2), (5, 7), int, list(range(-2, 10)))]
+    if tier == 'thorough':
+        out.append(('Decimal', (0, 2), (5, 7), D, [D(x) / 2 for x in range(-3, 18)]))
+        out.append(('Date', (0, 2), (5, 7), lambda x: _dt.date(2000, 1, 10) + _dt.timedelta(days=int(x)), list(range(-2, 10))))
+        out.append(('Double', (0, 2), (5, 7), float, [x / 2.0 for x in range(-3, 18)]))
+    return out
 
 
 def occurrence_types():
